@@ -233,7 +233,7 @@ Lemma loops_swap_bytes w n a : 0 < w -> wf w n a ->
 Proof.
   intros Hw [Ha _] fuel Hf. unfold Loops.swap_bytes, swap_bytes. rewrite Nat2Z.id.
   rewrite <- Ha, <- rev_length.
-  rewrite (loop_map1_all (u_swap_bytes w) (rev a)); try first [apply repeat_length | reflexivity | (rewrite rev_length; lia)].
+  rewrite (loop_map1_all_c (u_swap_bytes w) (rev a)); try first [apply repeat_length | reflexivity | (rewrite rev_length; lia) | (intros; rewrite ?rev_length in *; zbool_lia)].
   intros out j Hj Hl. rewrite rev_length in *. body_red.
   rewrite (usub_ok (Z.of_nat (length a)) 1) by lia. cbn [bind]. rewrite usub_ok by lia. cbn [bind].
   replace (Z.of_nat (length a) - 1 - Z.of_nat j) with (Z.of_nat (length a - S j)) by lia.
@@ -246,7 +246,7 @@ Lemma loops_reverse_bits w n a : 0 < w -> wf w n a ->
 Proof.
   intros Hw [Ha _] fuel Hf. unfold Loops.reverse_bits, reverse_bits. rewrite Nat2Z.id.
   rewrite <- Ha, <- rev_length.
-  rewrite (loop_map1_all (u_reverse_bits w) (rev a)); try first [apply repeat_length | reflexivity | (rewrite rev_length; lia)].
+  rewrite (loop_map1_all_c (u_reverse_bits w) (rev a)); try first [apply repeat_length | reflexivity | (rewrite rev_length; lia) | (intros; rewrite ?rev_length in *; zbool_lia)].
   intros out j Hj Hl. rewrite rev_length in *. body_red.
   rewrite (usub_ok (Z.of_nat (length a)) 1) by lia. cbn [bind]. rewrite usub_ok by lia. cbn [bind].
   replace (Z.of_nat (length a) - 1 - Z.of_nat j) with (Z.of_nat (length a - S j)) by lia.
